@@ -50,6 +50,8 @@ def run(ck):
     cpath = os.path.join(ck.work, "ord-cases.ndjson")
     res = ck.tlc_model("ec/MC_Ordering", cfg, workers=4, cases_path=cpath, timeout=1800)
     summ = do_replay(ck, cpath, "mc")
+    # the order laws for ALL integers (TLC: values -2..2): spec/ec/OrderingProofs.tla, tlapm
+    ck.tlaps("ec", ["OrderingCore.tla", "OrderingProofs.tla"], "OrderingProofs.tla")
     samples = construct(ck, 400 if q else 20000)
     ck.cov["evaluations"] = summ["cases"]
     ck.cov["distinct_nontrivial"] = res.ncases
